@@ -40,7 +40,13 @@ pub struct Case {
 impl Case {
     pub fn name(&self) -> String {
         match &self.subject {
-            Subject::Core { op, .. } => op.clone(),
+            Subject::Core { op, shape } => {
+                if op.starts_with("ckks_") && shape.flags & 1 == 1 {
+                    format!("{op}+widedst")
+                } else {
+                    op.clone()
+                }
+            }
             Subject::Eval(s) => {
                 if s.threads > 1 {
                     "execute_bdd_circuit_multi_thread".into()
@@ -90,11 +96,36 @@ impl Case {
 pub fn random_shape(rng: &mut Rng, thorough: bool) -> Shape {
     let n = if thorough { *rng.pick(&[8u32, 16, 32, 64]) } else { *rng.pick(&[8u32, 16, 32]) };
     let b = rng.range(8, 17) as u32;
-    let same_radix = rng.chance(500);
-    let pick_b = |rng: &mut Rng| if same_radix { b } else { (b as i64 + rng.range(0, 4) as i64 - 2).clamp(6, 18) as u32 };
-    let b_in = pick_b(rng);
-    let b_res = pick_b(rng);
-    let b_key = pick_b(rng);
+    // radix patterns: all equal, exactly two of the three equal (each way), all different - the
+    // cross-radix branches of ops and queries are keyed on different pairs
+    let other = |rng: &mut Rng, not: &[u32]| -> u32 {
+        loop {
+            let v = (b as i64 + rng.range(0, 6) as i64 - 3).clamp(6, 18) as u32;
+            if !not.contains(&v) {
+                return v;
+            }
+        }
+    };
+    let (b_in, b_key, b_res) = match rng.below(100) {
+        0..=29 => (b, b, b),
+        30..=44 => {
+            let o = other(rng, &[b]);
+            (b, b, o)
+        }
+        45..=59 => {
+            let o = other(rng, &[b]);
+            (b, o, b)
+        }
+        60..=74 => {
+            let o = other(rng, &[b]);
+            (o, b, b)
+        }
+        _ => {
+            let x = other(rng, &[b]);
+            let y = other(rng, &[b, x]);
+            (b, x, y)
+        }
+    };
     let size_in = rng.range(1, 4) as u32;
     let k_in = b_in * (size_in - 1) + rng.range(1, b_in as u64) as u32;
     let k_res = if rng.chance(500) {
@@ -126,6 +157,7 @@ pub fn random_shape(rng: &mut Rng, thorough: bool) -> Shape {
         dsize,
         n_lwe: rng.range(3, 9) as u32,
         extra: rng.below(8) as u32,
+        flags: rng.below(2) as u32,
         seed: rng.next(),
     }
 }
@@ -383,7 +415,7 @@ impl CheckImpl for C12 {
     }
     fn units(&self, tier: Tier, _seed: u64) -> u64 {
         match tier {
-            Tier::Quick => 12_800 / BATCH,
+            Tier::Quick => 32_000 / BATCH,
             Tier::Thorough => 160_000 / BATCH,
         }
     }
